@@ -472,6 +472,10 @@ func TestC04(t *testing.T) {
 		for _, a := range aggs {
 			classes = append(classes, "agg:"+in.MustCol(a.Col).Kind.String()+":"+a.Fn)
 		}
+		// the receiver is as it was (its positional and its by-name observers)
+		if again, err := hx.Observe(g.d.QF); err != nil || hx.Diff(in, again) != "" {
+			t.Fatalf("the operation changed its receiver: %v %s\n%s", err, hx.Diff(in, again), desc())
+		}
 		evC04.Case(nontrivialGroups(groups), desc, classes...)
 	})
 }
